@@ -35,6 +35,11 @@ type Term struct {
 	ID   int        // instance number of an impure call / fresh value
 	Pos  token.Pos
 	str  string
+	// Settled: a constant that stands for a symbolic comparison the path condition had already decided (not a
+	// constant of the program: loops on it are still loops over symbolic data)
+	Settled bool
+	// Pinned: settled by a path condition that leaves the compared value exactly one possibility (len(x) in {4})
+	Pinned bool
 }
 
 type Cell struct {
